@@ -207,7 +207,7 @@ static inline int levelRank(bool rel, int l)
     return l > 0 ? 2 * l : (l < 0 ? -2 * l - 1 : 0);
 }
 
-static std::string evBits(const edge_value& ev)
+std::string evBitsExact(const edge_value& ev)
 {
     char buf[48];
     switch (ev.getType()) {
@@ -302,7 +302,7 @@ bool oracleAudit(World& W, int f, Failure& fail, AuditStats* st)
             if (UF->down(i) != c) return failf("O3.views", p, "full and sparse views disagree on a child");
             if (ev && !(UF->edgeval(i) == US->edgeval(z))) return failf("O3.views", p, "full and sparse views disagree on an edge value");
             snprintf(buf, sizeof buf, "%u>%ld", i, long(c)); key += buf;
-            if (ev) key += evBits(US->edgeval(z));
+            if (ev) key += evBitsExact(US->edgeval(z));
             key += ";";
         }
         // full view: everything not in sparse view is transparent
@@ -521,6 +521,9 @@ std::string canonicalForm(World& W, int f, const dd_edge& e)
     const FSpec& S = W.fs[f];
     std::map<node_handle, int> num;
     std::ostringstream out;
+    // EV* edge values are floats that the library itself compares with a 1e-6 relative tolerance, so
+    // their low bits depend on which of two nearly equal nodes was created first: structure only
+    auto evBits = [&](const edge_value& ev) -> std::string { return S.label == 'T' ? std::string("*") : mv::evBitsExact(ev); };
     std::function<std::string(node_handle)> name = [&](node_handle p) -> std::string {
         char buf[64];
         if (p <= 0) {
